@@ -4,6 +4,7 @@ import (
 	"fmt"
 	"go/constant"
 	"go/types"
+	"os"
 	"strings"
 
 	"golang.org/x/tools/go/ssa"
@@ -35,8 +36,24 @@ func runC17(p *Program, r *Report) {
 	s := NewSummarizer(p, regs)
 	sites := analyseCtor(p, s, fn, modulePath, "Script")
 	pv := NewProv(p)
-	if len(sites) != 1 {
-		r.Undec("C17.R1", cname, p.Pos(fn.Pos()), fmt.Sprintf("expected one construction of Script with content, found %d", len(sites)))
+	direct := len(sites) == 1
+	if direct {
+		// the encoder is called in the function itself
+		n := 0
+		for _, b := range fn.Blocks {
+			for _, in := range b.Instrs {
+				if c, ok := in.(*ssa.Call); ok {
+					if g := staticCallee(c.Common()); g != nil && fnName(g) == "encoding/json.Marshal" {
+						n++
+					}
+				}
+			}
+		}
+		direct = n == 1
+	}
+	if !direct || os.Getenv("C17_FORCE_LANG") != "" {
+		// the construction or the encoding sits in helpers: decide everything by the language of the result
+		c17ByLanguage(p, r, s, fn, cname)
 		return
 	}
 	site := sites[0]
@@ -105,30 +122,7 @@ func runC17(p *Program, r *Report) {
 		r.Check(name == "encoding/json.Marshal" && dataOK, "C17.R2", cname+"#encoder", p.Pos(marshalCall.Pos()),
 			"J = encoding/json.Marshal(data)", "J is produced by "+name+" (not encoding/json.Marshal of the data parameter)")
 		// HTML-safe mode in the installed stdlib
-		if cal != nil && cal.Blocks != nil && name == "encoding/json.Marshal" {
-			trueStores, otherStores := 0, 0
-			for _, b := range cal.Blocks {
-				for _, in := range b.Instrs {
-					st, ok := in.(*ssa.Store)
-					if !ok {
-						continue
-					}
-					fa, ok := st.Addr.(*ssa.FieldAddr)
-					if !ok || fieldName(fa.X.Type(), fa.Field) != "escapeHTML" {
-						continue
-					}
-					if c, ok := st.Val.(*ssa.Const); ok && c.Value != nil && c.Value.Kind() == constant.Bool && constant.BoolVal(c.Value) {
-						trueStores++
-					} else {
-						otherStores++
-					}
-				}
-			}
-			r.Check(trueStores >= 1 && otherStores == 0, "C17.R2", "encoding/json.Marshal#escapeHTML", "",
-				"installed encoding/json.Marshal sets escapeHTML: true", "installed encoding/json.Marshal does not set escapeHTML: true unconditionally")
-		} else {
-			r.Undec("C17.R2", "encoding/json.Marshal#escapeHTML", "", "no SSA body for the encoder")
-		}
+		checkMarshalEscapesHTML(r, cal)
 	}
 	// the success store must be dominated by err == nil of the encoder
 	errGuard := false
@@ -182,9 +176,9 @@ func runC17(p *Program, r *Report) {
 		case zero:
 			// error must be provably non-nil: a call result of fmt.Errorf/errors.New or a value under err != nil guard
 			e := pv.Of(v1)
-			nonNil := calleeIs(e, "fmt.Errorf") || calleeIs(e, "errors.New")
+			nonNil := calleeIs(e, "fmt.Errorf") || calleeIs(e, "errors.New") || certainlyNonNil(v1, ret.Block())
 			for _, a := range pv.Atoms(ret.Block()) {
-				if !a.Pol && a.E.Op == "binop" && a.E.Name == "==" && a.E.Args[0].Val == v1 && a.E.Args[1].Op == "const" && a.E.Args[1].Const == nil {
+				if a.E.Op == "binop" && ((!a.Pol && a.E.Name == "==") || (a.Pol && a.E.Name == "!=")) && a.E.Args[0].Val == v1 && a.E.Args[1].Op == "const" && a.E.Args[1].Const == nil {
 					nonNil = true
 				}
 			}
@@ -237,4 +231,143 @@ func c17FrameByLanguage(p *Program, r *Report, s *Summarizer, fn *ssa.Function, 
 		return found[0]
 	}
 	return nil
+}
+
+// checkMarshalEscapesHTML: the installed encoding/json.Marshal sets escapeHTML unconditionally.
+func checkMarshalEscapesHTML(r *Report, cal *ssa.Function) {
+	if cal != nil && cal.Blocks != nil && fnName(cal) == "encoding/json.Marshal" {
+		trueStores, otherStores := 0, 0
+		for _, b := range cal.Blocks {
+			for _, in := range b.Instrs {
+				st, ok := in.(*ssa.Store)
+				if !ok {
+					continue
+				}
+				fa, ok := st.Addr.(*ssa.FieldAddr)
+				if !ok || fieldName(fa.X.Type(), fa.Field) != "escapeHTML" {
+					continue
+				}
+				if c, ok := st.Val.(*ssa.Const); ok && c.Value != nil && c.Value.Kind() == constant.Bool && constant.BoolVal(c.Value) {
+					trueStores++
+				} else {
+					otherStores++
+				}
+			}
+		}
+		r.Check(trueStores >= 1 && otherStores == 0, "C17.R2", "encoding/json.Marshal#escapeHTML", "",
+			"installed encoding/json.Marshal sets escapeHTML: true", "installed encoding/json.Marshal does not set escapeHTML: true unconditionally")
+	} else {
+		r.Undec("C17.R2", "encoding/json.Marshal#escapeHTML", "", "no SSA body for the encoder")
+	}
+}
+
+// c17ByLanguage decides all clauses on the result of the function: on every return with a nil
+// error the text of the returned Script, with each dynamic part replaced by a placeholder (the
+// name parameter, the output of encoding/json.Marshal applied to the data parameter and used
+// only after its error was tested, the script parameter), is exactly "var " NAME " = " J ";\n"
+// SCRIPT; the conditions under which the name is written accept only ASCII identifiers; every
+// other return carries the zero Script and a non-nil error. Helpers are followed.
+func c17ByLanguage(p *Program, r *Report, s *Summarizer, fn *ssa.Function, cname string) {
+	pv := NewProv(p)
+	oe := newOutEval(p, s)
+	oe.Markers = true
+	fr := &oframe{fn: fn, env: termEnv{}, bind: map[ssa.Value]*lx{}}
+	for i, prm := range fn.Params {
+		if isStringish(prm.Type()) {
+			fr.env[prm] = Term{Param: i}
+		}
+	}
+	want := "var " + string(markerRune(Term{Param: 0}.Key())) + " = " + string(markerRune(jsonMarkBase+1)) + ";\n" + string(markerRune(Term{Param: 2}.Key()))
+	success := map[*ssa.Return]bool{}
+	for i, ret := range Returns(fn) {
+		if len(ret.Results) != 2 {
+			continue
+		}
+		if k, ok := ret.Results[1].(*ssa.Const); !ok || k.Value != nil {
+			continue
+		}
+		success[ret] = true
+		c := fmt.Sprintf("%s#return%d", cname, i)
+		pos := p.Pos(ret.Pos())
+		x := oe.strLx(ret.Results[0], ret.Block(), fr)
+		oe.Problems = nil
+		d, L, err := oe.Language(x, func(L *Lang) { L.AddString(want) })
+		switch {
+		case err != nil:
+			r.Undec("C17.R1", c+"#frame", pos, "the language of the script text could not be computed: "+err.Error())
+		case len(oe.Problems) > 0:
+			r.Undec("C17.R1", c+"#frame", pos, "the script text is built in a way the evaluator cannot follow ("+oe.Problems[0]+"); "+x.String())
+		default:
+			if ok, w := relang.Equivalent(d, relang.Literal(L.A, want)); ok {
+				r.OK("C17.R1", c+"#frame", pos, "by language: the returned text is exactly \"var \" NAME \" = \" J \";\\n\" SCRIPT over placeholders")
+				r.OK("C17.R1", c+"#args", pos, "by language: name parameter, encoder output and script parameter occur once each, in this order")
+				r.OK("C17.R2", c+"#encoder", pos, "J is the output of encoding/json.Marshal applied to the data parameter")
+				r.OK("C17.R4", c+"#encode-error-guard", pos, "the encoder output is used only after its error was tested")
+				r.OK("C17.R4", c, pos, "success return carries the checked construction and a nil error")
+			} else if lxHasAny(x) {
+				r.Undec("C17.R1", c+"#frame", pos, "part of the returned text is built in a way the evaluator cannot follow (Σ*): "+x.String())
+			} else {
+				r.Viol("C17.R1", c+"#frame", pos, "the returned text "+x.String()+" is not \"var \" NAME \" = \" json.Marshal(data) \";\\n\" SCRIPT (placeholders: \ue000 name, \uf70d encoded data, \ue002 script)", w)
+			}
+		}
+	}
+	if len(success) == 0 {
+		r.Undec("C17.R1", cname, p.Pos(fn.Pos()), "no return with a nil error")
+	}
+	if jp := p.SSA.ImportedPackage("encoding/json"); jp != nil {
+		checkMarshalEscapesHTML(r, jp.Func("Marshal"))
+	} else {
+		r.Undec("C17.R2", "encoding/json.Marshal#escapeHTML", "", "encoding/json not loaded")
+	}
+	// R3: the conditions under which the name is written
+	forms := oe.termForms[Term{Param: 0}.Key()]
+	if len(forms) == 0 {
+		r.Viol("C17.R3", cname+"#name-guard", p.Pos(fn.Pos()), "the variable name is never written under a condition", "")
+	} else {
+		f := fOr(forms...)
+		L := NewLang()
+		if err := registerSumm(L, s, f); err != nil {
+			r.Undec("C17.R3", cname+"#name-guard", p.Pos(fn.Pos()), err.Error())
+		} else {
+			L.MustRe(specJSName)
+			L.Build()
+			per, ok := splitByParam(f)
+			if !ok || per[0] == nil {
+				r.Viol("C17.R3", cname+"#name-guard", p.Pos(fn.Pos()), "no regular guard on the variable name dominates the construction: "+f.String(), "")
+			} else if d, amb, err := L.Eval(per[0]); err != nil || len(amb) > 0 {
+				r.Undec("C17.R3", cname+"#name-guard", p.Pos(fn.Pos()), fmt.Sprintf("%v %v", err, amb))
+			} else if ok, w := relang.Subset(d, L.SearchRe(specJSName)); ok {
+				r.OK("C17.R3", cname+"#name-guard", p.Pos(fn.Pos()), "accepted names "+per[0].String()+" ⊆ [$_A-Za-z][$_A-Za-z0-9]*")
+			} else {
+				r.Viol("C17.R3", cname+"#name-guard", p.Pos(fn.Pos()), "a name that is not an ASCII identifier is accepted", w)
+			}
+		}
+	}
+	// R4: the other returns
+	for i, ret := range Returns(fn) {
+		if success[ret] || len(ret.Results) != 2 {
+			continue
+		}
+		c := fmt.Sprintf("%s#return%d", cname, i)
+		pos := p.Pos(ret.Pos())
+		v0, v1 := ret.Results[0], ret.Results[1]
+		zero := false
+		if k, ok := v0.(*ssa.Const); ok && k.Value == nil {
+			if _, isStruct := k.Type().Underlying().(*types.Struct); isStruct {
+				zero = true
+			}
+		}
+		if !zero {
+			r.Viol("C17.R4", c, pos, "an error return carries a non-zero Script: "+pv.Of(v0).String(), "")
+			continue
+		}
+		e := pv.Of(v1)
+		nonNil := calleeIs(e, "fmt.Errorf") || calleeIs(e, "errors.New") || certainlyNonNil(v1, ret.Block())
+		for _, a := range pv.Atoms(ret.Block()) {
+			if a.E.Op == "binop" && ((!a.Pol && a.E.Name == "==") || (a.Pol && a.E.Name == "!=")) && a.E.Args[0].Val == v1 && a.E.Args[1].Op == "const" && a.E.Args[1].Const == nil {
+				nonNil = true
+			}
+		}
+		r.Check(nonNil, "C17.R4", c, pos, "error return: zero Script and a non-nil error", "zero Script returned with an error that may be nil")
+	}
 }
